@@ -505,7 +505,11 @@ def main(argv=None):
         # the proof no longer applies to this tree -> undecided; whether the property itself broke is for the other checks
         for f in b.get("assumption_failures", [])[:3]:
             undecided.append(f"bounded {b.get('name')}: assumed contract no longer holds on this tree: {json.dumps(f, sort_keys=True)[:300]}")
-        for f in b.get("failures", [])[:5]:
+        reported = 0
+        for f in b.get("failures", []):
+            # (listed findings never use up the five report slots: they must not mask a different failure)
+            if reported >= 5:
+                break
             kf = None
             for k in known:
                 if k["property"] == prop and k.get("bounded") == b["name"] and k.get("match") and k["match"] in json.dumps(f, sort_keys=True):
@@ -526,6 +530,7 @@ def main(argv=None):
                 rp = {"property": prop, "bounded": b["name"], "bounded_module": b.get("module"), "failure": f, "bound": b.get("bound")}
             json.dump(rp, open(os.path.join(HERE, rpath), "w"), indent=1)
             violations += 1
+            reported += 1
             lines.append(f"VIOLATION property={prop} replay={rpath}")
 
     n_obl = len(obligations)
